@@ -6,6 +6,7 @@
 -/
 import Ark.Model.Ops
 import Ark.Model.Stats
+import Ark.Model.Codec
 
 open Ark Ark.World
 
@@ -26,6 +27,11 @@ structure Sys where
   snap : Bool := true
   fillers : Nat := 0
   lineNo : Nat := 0
+
+/-- two lower-case hex digits -/
+def hex2 (n : Nat) : String :=
+  let d := fun (k : Nat) => "0123456789abcdef".toList.getD k '0'
+  String.ofList [d (n / 16), d (n % 16)]
 
 /-! ### parsing helpers -/
 
@@ -538,6 +544,30 @@ def step (s : Sys) (line : String) : IO Sys := do
       -- the handles of the source world are valid again
       let s := match r with | .ok _ => { s with oldLabels := [], labels := lbls, epoch := ep } | .error _ => s
       emitResult s (resStr r)
+    | none => skip
+  | ["codec", ids, gens] =>
+    match ids.toNat?, gens.toNat? with
+    | some i, some g =>
+      if i ≥ 2 ^ 32 || g ≥ 2 ^ 32 then emitResult s "skip" else
+      let id := BitVec.ofNat 32 i
+      let gen := BitVec.ofNat 32 g
+      let bin := Codec.marshalBinary id gen
+      let hex := String.join (bin.map fun b => hex2 b.toNat)
+      let fmtE := fun (r : Option (Codec.U32 × Codec.U32)) => match r with
+        | some (a, b) => s!"{a.toNat}.{b.toNat}"
+        | none => "error"
+      let rt := Codec.unmarshalBinary bin
+      let app := Codec.unmarshalBinary ((Codec.appendBinary [0xAA#8] id gen).drop 1)
+      let js := Codec.marshalJSON id gen
+      let jrt := Codec.unmarshalJSON js
+      let err := if rt.isNone || app.isNone || jrt.isNone then 1 else 0
+      emitResult s s!"ok bin={hex} rt={fmtE rt} app={fmtE app} json=[{js.getD 0 0},{js.getD 1 0}] jrt={fmtE jrt} err={err}"
+    | _, _ => skip
+  | ["codecbad", n] =>
+    match n.toNat? with
+    | some k =>
+      if k > 64 then skip else
+      emitResult s s!"ok err={if (Codec.unmarshalBinary (List.replicate k 0#8)).isNone then 1 else 0}"
     | none => skip
   | ["res", "add", r, v] =>
     match numOf r, v.toNat? with
